@@ -108,9 +108,9 @@ func itemsWire(items []item) string {
 // ---------- rendering ----------
 
 type renderer struct {
-	rng    *rand.Rand
-	plain  bool // canonical spacing, lower case, no decoration
-	nl     string
+	rng       *rand.Rand
+	plain     bool // canonical spacing, lower case, no decoration
+	nl        string
 	noFinalNL bool
 }
 
@@ -238,7 +238,13 @@ func (r *renderer) items(items []item, lines *[]string) {
 
 func render(rng *rand.Rand, items []item, plain bool) []byte {
 	r := &renderer{rng: rng, plain: plain, nl: "\n"}
-	if !plain && rng.Intn(4) == 0 {
+	hasStrategy := false
+	for _, it := range items {
+		if it.kind == 'M' && it.name == "strategy" {
+			hasStrategy = true // the strategy text is captured raw, CR included
+		}
+	}
+	if !plain && !hasStrategy && rng.Intn(4) == 0 {
 		r.nl = "\r\n"
 	}
 	var lines []string
@@ -321,8 +327,14 @@ func (e *exprEnv) expr(d int) []etok {
 		if e.cmpOps && e.rng.Intn(4) == 0 {
 			ops = []string{"==", "<", ">", "<=", ">=", "&&", "||"}
 		}
-		out = append(out, etok{'o', ops[e.rng.Intn(len(ops))]})
-		out = append(out, e.prim(d)...)
+		op := ops[e.rng.Intn(len(ops))]
+		out = append(out, etok{'o', op})
+		nx := e.prim(d)
+		if (op == "<" || op == ">") && nx[0].k == 'o' {
+			// `<-` and `>=`-like fusions in the Go evaluator: parenthesise a signed operand
+			nx = append(append([]etok{{'L', "("}}, nx...), etok{'R', ")"})
+		}
+		out = append(out, nx...)
 	}
 	return out
 }
@@ -352,7 +364,7 @@ func asmConfig(rng *rand.Rand, legacy bool, bigM bool) gmars.SimulatorConfig {
 	case 3:
 		m := uint64(10 + rng.Intn(200))
 		c = gmars.NewQuickConfig(gmars.ICWS94, gmars.Address(m), gmars.Address(1+rng.Intn(50)), 100, gmars.Address(1+rng.Intn(int(m/3))))
-		c.Distance = gmars.Address(rng.Intn(int(m/3)))
+		c.Distance = gmars.Address(rng.Intn(int(m / 3)))
 	default:
 		c = gmars.ConfigNOP94
 	}
@@ -618,7 +630,8 @@ func genForBlock(rng *rand.Rand, used map[string]bool, outer []string, countName
 	default:
 		f.expr = []etok{{'n', fmt.Sprint(c)}}
 	}
-	if rng.Intn(4) == 0 {
+	labelled := rng.Intn(4) == 0 && c >= 1 && depth == 1 // a block label needs a first emitted instruction; nested copies would define it twice
+	if labelled {
 		f.labels = append(f.labels, ident(rng, used))
 	}
 	counters := append(append([]string{}, outer...), f.name)
@@ -626,7 +639,7 @@ func genForBlock(rng *rand.Rand, used map[string]bool, outer []string, countName
 	nb := 1 + rng.Intn(3)
 	o := progOpts{legacy: legacy}
 	for i := 0; i < nb; i++ {
-		if depth < 3 && rng.Intn(4) == 0 && *budget > 0 {
+		if depth < 3 && rng.Intn(4) == 0 && *budget > 0 && !(labelled && i == 0) {
 			saved := *budget
 			*budget = saved / max(c, 1)
 			f.body = append(f.body, genForBlock(rng, used, counters, countNames, vals, depth+1, budget, legacy))
@@ -746,7 +759,9 @@ func genExpr(out *bufio.Writer, rng *rand.Rand, count int) int {
 	for n := 0; n < count; n++ {
 		legacy := rng.Intn(4) == 0
 		cfg := asmConfig(rng, legacy, rng.Intn(3) != 0)
-		cfg.Length = 20
+		if cfg.CoreSize >= 200 {
+			cfg.Length, cfg.Distance = 20, 20
+		}
 		// expression-heavy: dat <e>, <e> lines, EQUs with signs, asserts
 		used := map[string]bool{}
 		consts := []string{"CORESIZE", "MAXLENGTH", "MAXPROCESSES", "MINDISTANCE"}
